@@ -194,6 +194,7 @@ class Cfg:
     havoc_on_acquire = True
     freeze_locals = False
     record_subscripts = True
+    exact_last_iteration = False  # while loops: splice the last, normally ending iteration in (flags set by it stay known)
 
     def is_shared_read(self, text: str, st: "St") -> bool:
         return True
@@ -621,8 +622,23 @@ class Enumerator:
         paths = [Path(s.evs, s.val, o) for s, o in body_res]
         out: list[tuple[St, tuple]] = []
         L = Ev("loop", itertext, node, render(node).split("\n")[0], {"paths": paths, "kind": kind, "iter_term": iter_term}, st1.fn, st1.depth, st1.selfcls, st1.selfpath)
+        # (d) [opt-in, while loops] the last iteration ends normally and the loop test then fails: evaluated on that iteration's own
+        #     end state, so that what the iteration assigned (a flag, a fresh reading) is known after the loop.  It replaces the
+        #     havocked completion (a) for loops that were entered (zero iterations are handled by the caller).
+        exact_last = bool(getattr(self.cfg, "exact_last_iteration", False)) and exit_test is not None
+        if exact_last:
+            for s, o in body_res:
+                if o not in (NORMAL, CONTINUE):
+                    continue
+                sd = s.fork()
+                sd.evs = st1.evs + [L, Ev("final_iter", itertext, node, "", {"normal": True}, st1.fn, st1.depth)] + s.evs
+                for se, truth in self.branch(exit_test, sd):
+                    if isinstance(truth, tuple):
+                        out.append((se, truth))
+                    elif not truth:
+                        out.extend(self.exec_block(node.orelse, se))
         # (a) normal completion (zero or more iterations, none breaking)
-        may_complete = any(p.outcome in (NORMAL, CONTINUE) for p in paths) or True
+        may_complete = not exact_last
         if may_complete:
             sa = st1.fork()
             sa.evs.append(L)
